@@ -20,6 +20,7 @@ struct TAOpts {
 mdl::TA gen_ta(Rng& r, const Pool& pool, const TAOpts& o);
 mdl::TA derive_ta(Rng& r, const Pool& pool, const mdl::TA& a, int kind);   // superset / subset / tweak / copy
 mdl::TA wide_pair_smaller(Rng& r, mdl::TA& bigger);                        // C07 shape: children with several macro-states
+mdl::TA repeat_pair_smaller(Rng& r, mdl::TA& bigger);                      // one state at several child positions, macro-states discovered one after the other
 // a pair (A, B) for inclusion checks: mostly near misses (B = A minus / tweaked / two cross-linked copies), some supersets, some independent
 void gen_incl_pair(Rng& r, const Pool& pool, int max_states, bool sparse, mdl::TA& A, mdl::TA& B);
 
